@@ -73,6 +73,9 @@ std::map<pMPI::JobId, pMPI::WorkerId> mpi_skel<WrapType>::run(const boost::mpi::
     comm.barrier();
 
     // Start calculating data
+#ifdef POMEROL_VERIF
+    pMPI::verif::delay(8); // a rank may be late between the barrier and the construction of its worker
+#endif
     for (pMPI::MPIWorker worker(comm,ROOT);!worker.is_finished();) {
 #ifdef POMEROL_VERIF
         pMPI::verif::delay(1);
